@@ -193,15 +193,90 @@ def rule_json_parse_errors(rep, fb):
             continue
         var = decls[0][1]
         ok = False
-        for iff in find_all(f["body"], lambda n: n[0] == "if" and isinstance(n[-1], int) and n[1][0] != "declcond"):
-            c = cexpr(iff[1])
-            if c == ("un", "!", ("var", var)) and _all_paths_throw(iff[2]):
-                ok = True
-            if c == ("var", var) and _all_paths_throw(iff[3]):
-                ok = True
-        r.check(ok, "do_parse:incomplete-throws", where, "do_parse has no `if (!%s)` all of whose paths throw: an incompletely parsed document is no longer an error" % var, detail="if (!%s) throw ..." % var)
+        # the test must sit in the same block as the Parse call, right after it: a test nested under another condition
+        # (as the original `if (handler.moved()) { if (!fully_parsed) ...` was) lets some failed parses through
+        from .callsites import each_block
+        blocks = []
+        each_block(f["body"], lambda stmts: blocks.append(stmts))
+        for stmts in blocks:
+            idx = [i for i, st in enumerate(stmts) if st is decls[0]]
+            if not idx:
+                continue
+            for iff in stmts[idx[0] + 1:]:
+                if iff[0] != "if" or iff[1][0] == "declcond":
+                    continue
+                c = cexpr(iff[1])
+                if c == ("un", "!", ("var", var)) and _all_paths_throw(iff[2]):
+                    ok = True
+                if c == ("var", var) and _all_paths_throw(iff[3]):
+                    ok = True
+        r.check(ok, "do_parse:incomplete-throws", where, "do_parse has no unconditional `if (!%s)` all of whose paths throw in the block that calls Parse: some incompletely parsed documents are no longer an error" % var, detail="if (!%s) throw ..., unconditionally after Parse" % var)
         # the snapshot is taken only after the loop (never returned from inside it)
         loops = find_all(f["body"], lambda n: n[0] == "while" and isinstance(n[-1], int))
         inside = any(find_all(l[2], lambda n: n[0] == "return") for l in loops)
         r.check(not inside, "do_parse:no-return-in-loop", where, "do_parse returns from inside the document loop (a partial result)", detail="result built after the loop")
+    return r.done()
+
+
+def rule_json_writer_result(rep, fb, floor=4):
+    r = rep.rule("ERRFLOW.json-writer", "rapidjson's Writer::Double returns false (after having written the separating comma) when it refuses a non-finite value: every call of writer_.Double(...) in json.cpp tests the result "
+                 "and turns a refusal into an exception - an ignored refusal leaves a hole in the text ([1.5,,])", floor=floor)
+    fs = [f for f in fb.lib_funcs(inst=False) if f["file"].endswith("io/json.cpp")]
+    if not fs:
+        raise AnalysisError("no functions from io/json.cpp")
+    n = 0
+    for f in fs:
+        def onblock(stmts, cont, f=f):
+            nonlocal n
+            for s in stmts:
+                for c in find_all(tuple(head_exprs(s)), lambda k: k[0] == "mcall" and k[1] == "Double" and k[3] in (("member", ("this",), "writer_"), ("var", "writer_"))):
+                    n += 1
+                    tested = s[0] == "if" and bool(find_all((s[1],), lambda k: k is c)) and (_all_paths_throw(s[2]) or _all_paths_throw(s[3]))
+                    r.check(tested, "%s#Double#%d" % (f["qual"], n), "%s:%d" % (f["file"], c[-1]), "%s ignores the result of writer_.Double(...): a refused NaN/infinity silently disappears from the output" % f["qual"],
+                            detail="if (!writer_.Double(x)) throw")
+        from .callsites import each_block_cont, head_exprs
+        each_block_cont(f["body"], onblock)
+    return r.done()
+
+
+def rule_json_substitution(rep, fb, floor=4):
+    r = rep.rule("FORWARD.json-substitution", "the nan/infinity substitution lives in ToJson*::real: the raw writer (impl_->real) is called only from a method named real, and no ToJson* method delegates a "
+                 "floating-point value to impl_->complex (which writes both parts raw)", floor=floor)
+    fs = [f for f in fb.lib_funcs(inst=False) if f["file"].endswith("io/json.cpp") and (f.get("cls") or "").startswith("ToJson")]
+    if len(fs) < 20:
+        raise AnalysisError("ToJson* methods not found in io/json.cpp")
+    n = 0
+    for f in fs:
+        for c in find_all(f["body"], lambda k: k[0] == "mcall" and k[1] in ("real", "complex") and find_all((k[3],), lambda m: m == ("member", ("this",), "impl_"))):
+            n += 1
+            key = "%s->impl_.%s#%d" % (f["qual"], c[1], n)
+            where = "%s:%d" % (f["file"], c[-1])
+            if c[1] == "real":
+                r.check(f["name"] == "real", key, where, "%s writes a double through impl_->real directly, bypassing the nan/infinity substitution of %s::real" % (f["qual"], f.get("cls")), detail="called from real()")
+            else:
+                r.fail(key, where, "%s delegates to impl_->complex, which writes the real and imaginary parts with the raw writer and bypasses the nan/infinity substitution" % f["qual"])
+    return r.done()
+
+
+def rule_json_flag(rep, fb, floor=15):
+    from .callsites import each_block_cont, head_exprs
+    r = rep.rule("PAIR.tojson-flag", "a tojson helper that takes include_beginendlist opens/closes the list around its own items (a beginlist/endlist outside every loop) only under `if (include_beginendlist)`: "
+                 "callers that pass false (PartitionedArray, which concatenates the items of its partitions) rely on getting bare items", floor=floor)
+    for f in fb.lib_funcs(inst=False):
+        if "include_beginendlist" not in [p[0] for p in f["params"]]:
+            continue
+        n = 0
+
+        def onblock(stmts, cont, f=f):
+            nonlocal n
+            inloop = any(pk in ("for", "foreach", "while", "dowhile") for pb, pi, pk in cont)
+            guarded = any(pb[pi][0] == "if" and find_all((pb[pi][1],), lambda k: k == ("var", "include_beginendlist")) for pb, pi, pk in cont)
+            for s in stmts:
+                if s[0] != "expr":
+                    continue
+                for c in find_all((s[1],), lambda k: k[0] == "mcall" and k[1] in ("beginlist", "endlist") and k[3] == ("var", "builder")):
+                    n += 1
+                    key = "%s#%s#%d" % (f["qual"], c[1], n)
+                    r.check(inloop or guarded, key, "%s:%d" % (f["file"], c[-1]), "%s calls builder.%s() around its items regardless of include_beginendlist" % (f["qual"], c[1]), detail="inside the item loop or under the flag")
+        each_block_cont(f["body"], onblock)
     return r.done()
